@@ -42,6 +42,77 @@ def _from_limited(body, defs, op):
     return [n for c, _, n in slice_calls(sl) if c == 'http_body_util::limited::Limited::new']
 
 
+APPENDERS = {'put', 'put_slice', 'extend_from_slice', 'extend', 'push', 'unsplit', 'put_bytes'}
+SIZES = {'remaining', 'len', 'chunk_len', 'remaining_mut'}
+
+
+def _budget_loop(ctx, body, defs, bytes_slice):
+    """BufferedBody.bytes <- freeze(buffer); every append of a piece of data to the buffer happens on the `size <= remaining` edge of a comparison
+    between the size of THAT data and a budget local; the budget is decreased by that size before the next piece is looked at; the budget
+    starts as the max_size parameter (conversions only) and is assigned nowhere else. -> (ok, explanation)"""
+    from ..arith import root_local, guarding_comparisons
+    appends = [(bb, t) for bb, t in body.calls() if (callee(t) or '').split('::')[-1] in APPENDERS and t['aty'] and
+               any(k in t['aty'][0] for k in ('BytesMut', 'Vec<u8>')) and bb in body.reachable(body.succ(bb))]
+    if not appends:
+        return False, 'no append to a byte buffer inside a loop was found'
+    for ab, at in appends:
+        data = root_local(body, defs, at['args'][1]) if len(at['args']) > 1 else None
+        if data is None:
+            return False, 'the appended value at %s is not a plain local' % body.loc(ab, at)
+        # the size of that data
+        sizes = []
+        for sb, stt in body.calls():
+            if (callee(stt) or '').split('::')[-1] in SIZES and stt['args']:
+                q = op_place(stt['args'][0])
+                _, locs = backward_slice(body, q['l'], defs, through_calls=False) if q else ([], set())
+                if data in locs and not stt['dest'].get('p'):
+                    sizes.append(stt['dest']['l'])
+        if not sizes:
+            return False, 'the size of the data appended at %s is never taken' % body.loc(ab, at)
+        found = None
+        for n in sizes:
+            # budget candidates: locals compared with n
+            for cand in range(len(body.locals)):
+                if body.locals[cand] not in ('usize', 'u64'):
+                    continue
+                for sb, good, bad in guarding_comparisons(body, defs, cand, n):
+                    if body.dominates(sb, ab) and ab not in body.reachable(bad, avoid=[sb]):
+                        found = (n, cand, sb, good)
+        if found is None:
+            return False, 'the append at %s is not guarded by a comparison between the size of the appended data and a budget' % body.loc(ab, at)
+        n, rem, sb, good = found
+        # the budget is decreased by n on every way back to the comparison
+        upd = []
+        for xb, j, st in body.all_assigns():
+            if st['lhs'] == {'l': rem} and st['rv']['k'] == 'use':
+                q = op_place(st['rv']['op'])
+                if q is not None and q.get('p') == ['f:0']:
+                    ds = defs.full.get(q['l'], [])
+                    if len(ds) == 1 and 'rv' in ds[0][2] and ds[0][2]['rv']['k'] == 'bin' and ds[0][2]['rv']['bop'] in ('SubWithOverflow', 'Sub', 'SubUnchecked'):
+                        rv = ds[0][2]['rv']
+                        if root_local(body, defs, rv['a']) == rem and root_local(body, defs, rv['b']) == n:
+                            upd.append(xb)
+            elif st['lhs'] == {'l': rem} and st['rv']['k'] == 'bin' and st['rv']['bop'] in ('Sub', 'SubUnchecked') and \
+                    root_local(body, defs, st['rv']['a']) == rem and root_local(body, defs, st['rv']['b']) == n:
+                upd.append(xb)
+        if not upd or sb in body.reachable(good, avoid=upd + [sb]) - {good} or (sb in body.reachable(body.succ(ab), avoid=upd) and not any(body.dominates(u, ab) for u in upd)):
+            return False, 'the budget `%s` is not decreased by the size of the data on every path from the append back to the comparison' % (body.var_name(rem) or '_%d' % rem)
+        # the budget starts as the configured limit and is assigned nowhere else
+        inits = [(xb, st) for xb, j, st in body.all_assigns() if st['lhs'] == {'l': rem} and xb not in upd]
+        calls_init = [t2 for xb, t2 in body.calls() if t2.get('dest') == {'l': rem}]
+        if len(inits) + len(calls_init) != 1:
+            return False, 'the budget has %d initialisations' % (len(inits) + len(calls_init))
+        isl, _ = backward_slice(body, rem, defs, stop=lambda nd: 'rv' in nd and nd['rv']['k'] == 'bin')
+        icalls = {c for c, _, _ in slice_calls(isl)} - {'bytes::buf::buf_impl::Buf::remaining'}
+        from_param = any('rv' in nd and any(q and q['l'] == 1 and q.get('p') and 'ByteUnit' in body.locals[nd['lhs']['l']]
+                                            for q in rv_operands(nd['rv'])[1] + [op_place(o) for o in rv_operands(nd['rv'])[0] if op_place(o)]) for _, _, nd in isl)
+        foreign = sorted(c for c in icalls if c not in CONVERSIONS and (c or '').split('::')[-1] not in SIZES)
+        if not from_param or foreign:
+            return False, 'the budget does not start as the max_size parameter (from parameter: %s, other calls: %s)' % (from_param, foreign)
+    return True, ('every append (%d site(s)) is on the `size <= budget` edge for the size of the appended data, the budget is decreased by that size before the '
+                  'next frame and starts as max_size' % len(appends))
+
+
 def r1_limited_collect(ctx):
     ctx.rule('C14.R1', 'P7 provenance, on BufferedBody::_extract_with_limit with its private helpers (sync or async) inlined (P13): every '
              'BufferedBody{bytes} takes `bytes` from Collected::to_bytes of a BodyExt::collect whose receiver derives from '
@@ -74,6 +145,11 @@ def r1_limited_collect(ctx):
         lim = [n for c, n in calls if c == 'http_body_util::limited::Limited::new']
         ok = bool(col) and all(_from_limited(body, defs, n['args'][0]) for n in col) and bool(lim) \
             and 'http_body_util::collected::Collected::to_bytes' in names
+        if not col and not lim:
+            # no library limiter: a hand-written budget loop is accepted when the budget discipline is visible in the code
+            okb, why = _budget_loop(ctx, body, defs, sl)
+            ctx.ob('C14.R1', 'bytes-from-limited-collect', okb, body.loc(bb, st), 'BufferedBody.bytes is accumulated by hand: ' + why)
+            continue
         ctx.ob('C14.R1', 'bytes-from-limited-collect', ok, body.loc(bb, st),
                'BufferedBody.bytes <- to_bytes <- collect(%s) <- Limited::new: %s' % ([n['aty'][0] for n in col], bool(lim)))
         for n in lim:
